@@ -648,7 +648,9 @@ class SAMIParser(HTMLParser):
         self.line = ''
         self.styles = {}
         self.queue = deque()
-        self.langs = set()
+        # languages in order of first appearance (a set would be iterated in
+        # hash order, which differs from one interpreter run to the next)
+        self.langs = []
         self.last_element = ''
         self.name2codepoint = name2codepoint.copy()
         self.name2codepoint['apos'] = 0x0027
@@ -673,7 +675,8 @@ class SAMIParser(HTMLParser):
             # if no language detected, set it as the default
             lang = lang or DEFAULT_LANGUAGE_CODE
             attrs.append(('lang', lang))
-            self.langs.add(lang)
+            if lang not in self.langs:
+                self.langs.append(lang)
 
         # clean-up line breaks
         if tag == 'br':
@@ -736,7 +739,7 @@ class SAMIParser(HTMLParser):
     def feed(self, data):
         """
         :param data: Raw SAMI unicode string
-        :returns: tuple (str, dict, set)
+        :returns: tuple (str, dict, list)
         """
         no_cc = 'no closed captioning available'
 
